@@ -194,64 +194,112 @@ def r_unsolved(ctx):
 
 
 def r_unsolved_program(ctx):
-    """Point.eval and Expression.eval unrolled (sa/miniint.py) in the state before any successful solve: no leaf has a value and the class-level
-    attributes hold what the class body gives them (the counters stand at the number of leaves).  For a leaf and for a combination of leaves the
-    outcome must be the documented ValueError -- raised by the accessor itself or by the accessor of the first leaf it asks -- and nothing else may
-    fail on the way (an allocation sized by an attribute that only a solve fills, say)."""
-    from ..miniint import IndexInterp, SymObj
+    """The value / multiplier accessors of the four DSL classes unrolled (sa/miniint.py, recursively through the accessors of their operands, with
+    try / except followed) in the two states a user can meet:
+
+    before any successful solve -- no leaf has a value, no constraint a multiplier, the class-level attributes hold what the class body gives them
+    (the counters stand at the number of leaves): every accessor ends in the documented ValueError and nothing else fails on the way (an allocation
+    sized by an attribute that only a solve fills, say);
+
+    after a solve -- leaves carry symbolic values, constraints symbolic multipliers: Constraint.eval returns the value of its expression,
+    PSDMatrix.eval the matrix of the values of its entries at their own positions, eval_dual the stored multiplier."""
+    from ..miniint import IndexInterp, SymObj, ProgramRaise
+    from ..nf import Rat
     repo = ctx.repo
     n = 0
-    for cname in ("Point", "Expression"):
-        cls = repo.cls(cname)
-        fn = cls.methods.get("eval")
-        if fn is None:
-            continue
-        ctx.unit("%s.eval" % cname)
-        pts = [SymObj("Point", label="p%d" % k, counter=k, _is_leaf=True, _value=None) for k in range(2)]
-        exs = [SymObj("Expression", label="e%d" % k, counter=k, _is_leaf=True, _value=None) for k in range(2)]
+    methods = {}
+    for cname in ("Point", "Expression", "Constraint", "PSDMatrix"):
+        for m in ("eval", "eval_dual"):
+            f0 = repo.cls(cname).find_method(m)
+            if f0 is not None:
+                methods[(cname, m)] = f0
+
+    def class_env(solved):
+        env = {"Point": ("type", "Point"), "Expression": ("type", "Expression"), "tuple": ("type", "tuple"), "int": ("type", "int"), "float": ("type", "float"),
+               "Constraint": ("type", "Constraint"), "PSDMatrix": ("type", "PSDMatrix")}
+        for k0 in ("Point", "Expression", "Constraint", "PSDMatrix"):
+            for a0, v0 in repo.cls(k0).class_attrs.items():
+                if isinstance(v0, ast.Constant):
+                    env["%s.%s" % (k0, a0)] = v0.value
+        env["Point.counter"] = 2
+        env["Expression.counter"] = 2
+        return env
+
+    def call_method(o, name, solved, depth=0):
+        fn = methods.get((o.kind, name))
+        if fn is None or depth > 6:
+            raise AnalysisError("no accessor %s.%s" % (o.kind, name))
+        env = class_env(solved)
+        env[params_of(fn)[0]] = o
+
+        def on_call(node, it):
+            nm = call_name(node)
+            f = node.func
+            if isinstance(f, ast.Attribute) and nm in ("eval", "eval_dual", "get_is_leaf") and not node.args:
+                try:
+                    o2 = it.ev(f.value)
+                except AnalysisError:
+                    return NotImplemented
+                if isinstance(o2, SymObj) and nm == "get_is_leaf":
+                    return o2.attrs["_is_leaf"]
+                if isinstance(o2, SymObj) and (o2.kind, nm) in methods:
+                    return call_method(o2, nm, solved, depth + 1)
+            if nm in ("dot", "inner", "vdot") and len(node.args) == 2:
+                a, b = it.ev(node.args[0]), it.ev(node.args[1])
+                if isinstance(a, tuple) and isinstance(b, tuple) and a[:1] == ("vec",) and b[:1] == ("vec",):
+                    return Rat.sym("<%s,%s>" % tuple(sorted((a[1], b[1]))))
+            if nm in ("array", "asarray") and len(node.args) == 1 and isinstance(f, ast.Attribute):
+                v = it.ev(node.args[0])
+                if isinstance(v, list):
+                    return v
+            return NotImplemented
+        it = IndexInterp(env, on_call=on_call, check_asserts=True)
+        return it.run(fn.body)
+
+    for solved in (False, True):
+        pts = [SymObj("Point", label="p%d" % k, counter=k, _is_leaf=True, _value=("vec", "p%d" % k) if solved else None) for k in range(2)]
+        exs = [SymObj("Expression", label="e%d" % k, counter=k, _is_leaf=True, _value=Rat.sym("val_e%d" % k) if solved else None) for k in range(2)]
         for o in pts + exs:
             o.attrs["decomposition_dict"] = {o: 1}
-        derived = {"Point": SymObj("Point", label="2 p0 - p1", counter=None, _is_leaf=False, _value=None, decomposition_dict={pts[0]: 2, pts[1]: -1}),
-                   "Expression": SymObj("Expression", label="e1 + 3 <p0, p1> + 5", counter=None, _is_leaf=False, _value=None,
-                                        decomposition_dict={exs[1]: 1, (pts[0], pts[1]): 3, 1: 5})}
-        for what, obj in (("leaf", (pts if cname == "Point" else exs)[0]), ("combination", derived[cname])):
-            env = {"Point": ("type", "Point"), "Expression": ("type", "Expression"), "tuple": ("type", "tuple"), "int": ("type", "int"), "float": ("type", "float")}
-            for k0 in ("Point", "Expression"):
-                for a0, v0 in repo.cls(k0).class_attrs.items():
-                    if isinstance(v0, ast.Constant):
-                        env["%s.%s" % (k0, a0)] = v0.value
-                env[k0 + ".counter"] = 2
-            env["Point.list_of_leaf_points"] = list(pts)
-            env["Expression.list_of_leaf_expressions"] = list(exs)
-            env[params_of(fn)[0]] = obj
-
-            def on_call(node, it):
-                nm = call_name(node)
-                if isinstance(node.func, ast.Attribute) and nm in ("eval", "get_is_leaf") and not node.args:
-                    try:
-                        o = it.ev(node.func.value)
-                    except AnalysisError:
-                        return NotImplemented
-                    if isinstance(o, SymObj) and nm == "get_is_leaf":
-                        return o.attrs["_is_leaf"]
-                    if isinstance(o, SymObj) and o.attrs.get("_is_leaf") and o.attrs.get("_value") is None:
-                        raise AnalysisError("the index program raises: `raise ValueError` (accessor of the leaf %s, which has no value)" % o.attrs["label"])
-                return NotImplemented
-            it = IndexInterp(env, on_call=on_call, check_asserts=True)
+        dpt = SymObj("Point", label="2 p0 - p1", counter=None, _is_leaf=False, _value=None, decomposition_dict={pts[0]: 2, pts[1]: -1})
+        dex = SymObj("Expression", label="e1 + 3 <p0, p1> + 5", counter=None, _is_leaf=False, _value=None,
+                     decomposition_dict={exs[1]: Rat(1), (pts[0], pts[1]): Rat(3), 1: Rat(5)})
+        want_dex = Rat.sym("val_e1") + Rat(3) * Rat.sym("<p0,p1>") + Rat(5)
+        con = SymObj("Constraint", label="constraint", expression=dex, equality_or_inequality="inequality", _value=None,
+                     _dual_variable_value=Rat.sym("lambda") if solved else None, counter=0)
+        lmi = SymObj("PSDMatrix", label="lmi", matrix_of_expressions=[[exs[0], dex], [exs[1], exs[1]]], shape=(2, 2), _value=None,
+                     _dual_variable_value=("dual-matrix",) if solved else None, counter=0, entries_dual_variable_value=None)
+        cases = [("Point.eval, leaf", pts[0], "eval", ("vec", "p0")), ("Point.eval, combination", dpt, "eval", None),
+                 ("Expression.eval, leaf", exs[0], "eval", Rat.sym("val_e0")), ("Expression.eval, combination", dex, "eval", want_dex),
+                 ("Constraint.eval", con, "eval", want_dex), ("Constraint.eval_dual", con, "eval_dual", Rat.sym("lambda")),
+                 ("PSDMatrix.eval", lmi, "eval", [[Rat.sym("val_e0"), want_dex], [Rat.sym("val_e1"), Rat.sym("val_e1")]]),
+                 ("PSDMatrix.eval_dual", lmi, "eval_dual", ("dual-matrix",))]
+        for label, obj, meth, want in cases:
+            if (obj.kind, meth) not in methods:
+                continue
+            if solved and want is None:
+                continue          # the value of a combination of points is an array expression (decided by R-EVALSHAPE on the loop)
+            fn = methods[(obj.kind, meth)]
             msg = None
             try:
-                ret = it.run(fn.body)
-                msg = "returns `%r` although no leaf has a value" % (ret,)
+                ret = call_method(obj, meth, solved)
+                if not solved:
+                    msg = "returns `%r` although nothing has been solved" % (ret,)
+                else:
+                    from ..miniint import _deep_eq
+                    if not _deep_eq(ret, want):
+                        msg = "returns `%r`, expected `%r`" % (ret, want)
+            except ProgramRaise as ex:
+                if solved:
+                    msg = "raises on a solved model: %s" % ex
+                elif ex.exc != "ValueError":
+                    msg = "fails with %s instead of the documented ValueError: %s" % (ex.exc, str(ex).replace("the index program raises: ", ""))
             except AnalysisError as ex:
-                t = str(ex)
-                if "the index program raises" not in t:
-                    ctx.notes.append("R-UNSOLVED program for %s.eval skipped: %s" % (cname, t))
-                    continue
-                if "raise ValueError" not in t:
-                    msg = "fails with something else than the documented ValueError: %s" % t.replace("the index program raises: ", "")
+                ctx.notes.append("R-UNSOLVED program for %s (%s) skipped: %s" % (label, "solved" if solved else "unsolved", ex))
+                continue
             n += 1
-            ctx.ob("R-UNSOLVED", "%s.eval::before any solve, %s (unrolled)" % (cname, what), msg is None,
-                   "raises the documented ValueError" if msg is None else msg, loc(fn, fn))
+            ctx.ob("R-UNSOLVED", "%s::%s (unrolled)" % (label, "after a solve" if solved else "before any solve"), msg is None,
+                   ("returns the value / multiplier of the object" if solved else "raises the documented ValueError") if msg is None else msg, loc(fn, fn))
     ctx.count("unsolved-state programs", n)
 
 
